@@ -4,10 +4,13 @@ pub use tracing_attr_shim::instrument;
 impl Level { pub const TRACE: Level = Level; pub const DEBUG: Level = Level; pub const INFO: Level = Level; pub const WARN: Level = Level; pub const ERROR: Level = Level; }
 pub mod field { pub struct Empty; }
 pub struct Span;
-impl Span { pub fn current() -> Span { Span } pub fn record<V>(&self, _field: &str, _v: V) -> &Self { self } }
+impl Span { pub fn current() -> Span { Span } pub fn record<V>(&self, _field: &str, _v: V) -> &Self { self } pub fn enter(&self) -> Entered { Entered } }
+pub struct Entered;
 #[macro_export] macro_rules! trace { ($($t:tt)*) => {{}}; }
 #[macro_export] macro_rules! debug { ($($t:tt)*) => {{}}; }
 #[macro_export] macro_rules! info { ($($t:tt)*) => {{}}; }
 #[macro_export] macro_rules! warn { ($($t:tt)*) => {{}}; }
 #[macro_export] macro_rules! error { ($($t:tt)*) => {{}}; }
 #[macro_export] macro_rules! event { ($($t:tt)*) => {{}}; }
+#[macro_export] macro_rules! info_span { ($($t:tt)*) => { $crate::Span }; }
+#[macro_export] macro_rules! debug_span { ($($t:tt)*) => { $crate::Span }; }
